@@ -46,6 +46,9 @@ var c03Lib = []string{
 	"nested = (n) -> {\nfor i <- fromto(0, n) {\nfor j <- fromto(0, n) {\nif i * j == 6 return [i, j]\n}\n}\n}",
 	"ylds = () -> {\nv = 1\nyield () -> v\nv = 2\nyield () -> v\nv = 3\n}",
 	"collect = () -> {\nfs = []\nfor f <- ylds() fs = fs + [f]\nfa = fs[0]\nfb = fs[1]\n[fa(), fb()]\n}",
+	"mkgen = (p, q) -> () -> {\nyield p\nyield q\nyield p + q\n}",
+	"useg = (a, k) -> {\ng = mkgen(a, a * 2)\nh = adder(k)\ns = 0\nfor v <- g() s = s + h(v)\ns\n}",
+	"shared = (n) -> {\nstop = false\nlim = n\ngg = () -> {\ni = 0\nwhile !stop {\nyield i + lim\ni = i + 1\n}\n}\nr = []\nfor v <- gg() {\nr = r + [v]\nlim = lim + 10\nif #r >= 3 stop = true\n}\nr\n}",
 	"pick = (n) -> {\nif n > 0 a = n * 3\nb = n + 1\nif n > 1 c = n\n[a, b, c]\n}",
 	"map = (f, it) -> for e <- it() yield f(e)",
 	"itclos = (k, n) -> {\ns = 0\nfor v <- map((x) -> x + k, () -> fromto(0, n)) s = s + v\ns\n}",
@@ -53,7 +56,7 @@ var c03Lib = []string{
 }
 
 func c03Calls(t *rapid.T) (call, other string, heavy bool) {
-	kind := rapid.IntRange(0, 15).Draw(t, "call")
+	kind := rapid.IntRange(0, 17).Draw(t, "call")
 	mk := func() (string, bool) {
 		n := func(hi int) int { return rapid.IntRange(0, hi).Draw(t, "arg") }
 		d := rapid.SampledFrom([]int{0, 1, 40, 130, 300, 1000}).Draw(t, "deep")
@@ -86,6 +89,10 @@ func c03Calls(t *rapid.T) (call, other string, heavy bool) {
 			return fmt.Sprintf("itclos(%d, %d)", n(20), 1+n(4)), true
 		case 13:
 			return fmt.Sprintf("itpick(%d, %d)", n(20), n(20)), true
+		case 16:
+			return fmt.Sprintf("useg(%d, %d)", n(20), n(200)), true
+		case 17:
+			return fmt.Sprintf("shared(%d)", n(20)), true
 		case 15:
 			// reads locals it may never have assigned: they must be nil, whatever was on the stack before
 			return fmt.Sprintf("pick(%d)", n(3)), true
